@@ -143,6 +143,8 @@ def _minmax(f):
     def g(a, b):
         if math.isnan(a) or math.isnan(b):
             raise Unknown("NaN operand of min/max")
+        if a == b == 0.0 and math.copysign(1.0, a) != math.copysign(1.0, b):
+            raise Unknown("min/max of +0.0 and -0.0: either zero is a correct answer")
         return float(f(a, b))
 
     return g
